@@ -62,7 +62,12 @@ pub fn run(out: &mut Out, rng: &mut Rng, tier: Tier) {
         page_ops::<Size2MiB>(out, rng);
         page_ops::<Size1GiB>(out, rng);
     }
-    // Table indices: all 512 indices x counts 0..600 (+ huge counts) — exhaustive in the index.
+    index_steps(out, tier);
+}
+
+/// Table indices: all 512 indices x counts 0..600 (+ huge counts) — exhaustive in the index. Also part of the C04
+/// stream ("index values never leave 0..512": stepping is one of the operations that produce indices).
+pub fn index_steps(out: &mut Out, tier: Tier) {
     let huge = [usize::MAX, usize::MAX - 1, 1 << 16, (1 << 16) - 1, 1 << 32, 65535 - 511, 65536 - 511];
     for i in 0..512u16 {
         let idx = PageTableIndex::new(i);
